@@ -60,7 +60,7 @@ def solve(spec, height):
     if spec.get("dom_h", 0) == 4:
         w = spec.get("w", 2)
         n = len(p.shr_domains_lst)
-        kw["dom_heuristic_params"] = [[1 + ((3 * v + d) % 3) for v in range(w)] for d in range(n)]
+        kw["dom_heuristic_params"] = [[1 if v == 1 else 2 for v in range(w)] for d in range(n)]  # an interior value is cheapest
     s = BacktrackSolver(p, consistency_alg_idx=spec.get("cons", 0), var_heuristic_idx=spec.get("var_h", 0),
                         dom_heuristic_idx=spec.get("dom_h", 0), stack_max_height=height, log_level="ERROR", **kw)
     out = []
